@@ -26,6 +26,8 @@ Judge(ok) == IF ok THEN TRUE ELSE PrintT("REJECT line=" \o ToString(l) \o " op="
 Stateless(op, ok) == IsEvent(op) /\ Judge(ok) /\ UNCHANGED st
 
 Reset      == IsEvent("reset") /\ st' = StInit
+\* the harness process died inside an announced call of the library (bin/check turns the announcement into this event)
+Crashed    == Stateless("crashed", FALSE)
 Codec      == Stateless("codec", CodecOK(E))
 DecodeEv   == Stateless("decode", DecodeOK(E))
 HexFmtEv   == Stateless("hexfmt", HexFmtOK(E))
@@ -122,7 +124,7 @@ GoldenGeom == Stateless("goldengeom", GoldenGeomOK(E))
 GoldenLookup == Stateless("goldenlookup", GoldenLookupOK(E))
 
 TraceNext ==
-  \/ Reset \/ Codec \/ DecodeEv \/ HexFmtEv \/ HexParseEv \/ CanonOut
+  \/ Reset \/ Crashed \/ Codec \/ DecodeEv \/ HexFmtEv \/ HexParseEv \/ CanonOut
   \/ SortedBlock \/ AncPair \/ RunBlock
   \/ Children \/ ChildrenBig \/ Ancestors \/ ParentComp \/ ChildComp \/ LevelBlock \/ LevelEnd
   \/ Uncompact \/ WorldEv \/ Compact8 \/ Compact10 \/ CompactPair \/ BigCompact
